@@ -125,6 +125,11 @@ package slip
 //@ func slip.(*Lambda).Call
 //@   property C04 C08
 //@   no-store slip.DocArg.Default slip.DocArg.Name slip.FuncDoc.Args
+// C08: a variable of the calling scope is looked up before the scope a
+// closure captured when it was built: compiled code caches the Lambda of an
+// inline ((lambda ...) ...) form together with the scope of its first
+// evaluation, and only this order keeps that stale scope harmless.
+//@   on-store parents#1 caller-scope-first: len(now) >= 2 && now[0] == s && now[len(now) - 1] == lam.Closure
 
 // ---------------------------------------------------------------------------
 // C13: package visibility.
